@@ -111,6 +111,9 @@ Out(E) ==
    code |-> fin.code, data |-> fin.data, reach |-> ReachBytes(Img, AllEntries(E)),
    ids |-> [i \in 1..Len(prog) |-> IF prog[i].k = "ins" THEN prog[i].f.id ELSE prog[i].k],
    starts |-> ReachStarts(Img, AllEntries(E)),
+   \* <<address, target>> of every reachable instruction with a control-flow target operand, decoded by the ISA table
+   \* (in-page / relative rules applied to the instruction's own address): the label a disassembler must print
+   targets |-> {<<a, DecodeAt(Img, a).tgt>> : a \in {s \in ReachStarts(Img, AllEntries(E)) : DecodeAt(Img, s).tgt >= 0}},
    \* addresses directly behind reachable indirect jumps (flow "stop"): a tracer must not continue there
    stopends |-> {a + DecodeAt(Img, a).len : a \in {s \in ReachStarts(Img, AllEntries(E)) : DecodeAt(Img, s).flow = "stop"}}]
 
